@@ -392,7 +392,7 @@ func c02(r *Run) {
 	}
 
 	// a recycled node struct carries no stale origin/buf (Refer would count a foreign root): C03.R2
-	r.borrow([]string{"C03.R2:cleared-before-pooled"}, "C03.R2", "C02.R5", func() { c03(r) })
+	r.borrow([]string{"C03.R2:cleared-before-pooled", "C03.R2:no-reference-kept"}, "C03.R2", "C02.R5", func() { c03(r) })
 
 	// ---- R6 an exposed block is not truncated for re-use before Release -------------------------------
 	for _, fn := range w.Funcs {
